@@ -160,7 +160,7 @@ def run(ctx: RuleContext, p: Program) -> None:
     from . import tsseq, possem
     ctx.try_rule(possem.rule_pos_sem, ts, 'POS-SEM', 4 if ctx.tier == 'quick' else 6)
     ctx.try_rule(possem.rule_hist_pos, ts, 'POS-HIST')
-    ctx.try_rule(tsseq.rule_ts_seq, ts, 'TS-SEQ', 4 if ctx.tier == 'quick' else 6, ['sizes', 'handles'])
+    ctx.try_rule(tsseq.rule_ts_seq, ts, 'TS-SEQ', 4 if ctx.tier == 'quick' else 6, ['sizes', 'handles', 'refusal'])
     ctx.not_decided += ['incremental line/column arithmetic inside TokenStore.update', 'get_position summation',
                         'equality of reported and recomputed positions over histories']
     ctx.assumptions += ['Python str/list semantics', 'TokenStore.update receives the old size via token.size (checked: '
